@@ -35,6 +35,7 @@ impl Space {
                     "FW" => fam::fw_count(),
                     "FM" => fam::fm_count(),
                     "FR" => fam::fr_count(),
+                    "FO" => fam::fo_count(),
                     _ => panic!("unknown family {name}"),
                 },
             })
@@ -60,6 +61,7 @@ impl Space {
                     "FW" => fam::fw_decode(idx),
                     "FM" => fam::fm_decode(idx),
                     "FR" => fam::fr_decode(idx),
+                    "FO" => fam::fo_decode(idx),
                     _ => unreachable!(),
                 };
                 return (p.name, g);
